@@ -49,6 +49,12 @@ func checkC16(c *Ctx) {
 
 	c.c16Stored(pm)
 	c.c16Async(pm)
+	// the hub relays every event it is given to the connected monitors, whatever the state of
+	// its replay history (decided by C15's broadcast rule): a 'deleted' event that is only
+	// relayed when the message is still in the history never reaches a listener that saw its
+	// 'stored' event
+	nR := c.borrow(checkC15, "C15/ACTOR/broadcast-unconditional", "C16/RELAY/unconditional", "every hub operation that relays stored/deleted events to the listeners does so on every path")
+	r.Floor("C16/RELAY/unconditional", "borrowed obligations", nR, 1)
 }
 
 func (c *Ctx) c16Stored(pm *pairModel) {
